@@ -1090,6 +1090,21 @@ def scenario_diag(rng, props, fails, stats):
     if rng.random() < 0.3:
         sk[:, int(rng.integers(0, n))] *= 1e-9
     yk = sk @ H
+    # structured pair sets: a gradient component that never changed (objective linear in that variable) and/or a
+    # variable that never moved - kept only if every pair still has positive curvature
+    r = rng.random()
+    if n >= 2 and r < 0.35:
+        yk2, sk2 = yk.copy(), sk.copy()
+        j = int(rng.integers(0, n))
+        if r < 0.2:
+            yk2[:, j] = 0.0
+        else:
+            sk2[:, j] = 0.0
+            yk2 = sk2 @ H
+            if r < 0.28:
+                yk2[:, int(rng.integers(0, n))] = 0.0
+        if np.all(np.einsum("ij,ij->i", sk2, yk2) > 1e-12 * np.einsum("ij,ij->i", yk2, yk2)):
+            sk, yk = sk2, yk2
     op = LbfgsInvHessProduct(sk, yk)
     stats["runs"] += 1
     stats["nontrivial"] += 1
